@@ -43,21 +43,24 @@ STRESS_SCENARIOS = {
     # every scenario is attached to every property one of its oracles can decide (tags in harness/src/bin/stress.rs)
     "C01": (["late", "blocking", "cancel", "backlog", "refs", "selfchain"], 0, ["late", "blocking", "cancel", "backlog", "refs", "selfchain", "hammer", "mix"], 60),
     "C02": (["blocking", "cancel", "backlog"], 0, ["blocking", "cancel", "backlog", "hammer", "mix"], 60),
-    "C03": (["askjoin", "hammer", "idlewin", "blocking", "cancel", "backlog", "replyclose", "mix"], 6, ["askjoin", "hammer", "idlewin", "blocking", "cancel", "backlog", "replyclose", "mix"], 180),
-    "C04": (["backlog", "refs", "hookpanic"], 0, ["backlog", "refs", "hookpanic", "hammer", "mix"], 60),
+    "C03": (["askjoin", "hammer", "idlewin", "blocking", "cancel", "backlog", "replyclose", "mix", "afterend"], 6, ["askjoin", "hammer", "idlewin", "blocking", "cancel", "backlog", "replyclose", "mix", "afterend"], 180),
+    "C04": (["backlog", "refs", "hookpanic", "idlewin"], 0, ["backlog", "refs", "hookpanic", "hammer", "mix", "idlewin"], 60),
     "C05": (["cancel", "backlog", "idlewin", "refs"], 0, ["cancel", "backlog", "idlewin", "refs", "hammer", "mix"], 60),
     "C06": (["refs"], 0, ["refs", "hammer", "mix"], 60),
     "C07": (["refs", "cancel", "backlog", "blocking", "selfchain"], 0, ["refs", "cancel", "backlog", "blocking", "selfchain", "hammer", "mix"], 60),
     "C08": (["idlewin", "backlog", "cancel"], 0, ["idlewin", "backlog", "cancel"], 0),
     "C09": (["blocking", "cancel", "backlog"], 0, ["blocking", "cancel", "backlog"], 0),
     "C10": (["late", "blocking", "lazyfut"], 0, ["late", "blocking", "lazyfut"], 0),
-    "C11": (["ids", "refs", "selfchain"], 0, ["ids", "refs", "selfchain"], 0),
+    "C11": (["ids", "refs", "selfchain", "afterend"], 0, ["ids", "refs", "selfchain", "afterend"], 0),
     "C12": (["ids", "hookpanic"], 0, ["ids", "hookpanic"], 0),
     "C13": (["blocking", "replyclose", "mix"], 4, ["blocking", "replyclose", "mix"], 60),
     "C16": (["lazyfut", "blocking", "erasedblk", "refs"], 0, ["lazyfut", "blocking", "erasedblk", "refs"], 0),
     "C17": (["blocking", "late", "erasedblk"], 0, ["blocking", "late", "erasedblk", "hammer"], 60),
-    "C19": (["blocking"], 0, ["blocking"], 0),
+    "C19": (["blocking", "askjoin"], 0, ["blocking", "askjoin"], 0),
 }
+
+
+STRESS_FEAT = {"C17": ["blocking"]}
 
 
 def stress(prop, tier, seed, ctx):
@@ -76,6 +79,17 @@ def stress(prop, tier, seed, ctx):
     r = json.load(open(rep))
     res["evidence"] = {"scenarios": r["scenarios"], "stats": r["stats"], "violations_all_properties": len(r["violations"])}
     mine = [v for v in r["violations"] if prop in v["props"].split()]
+    # scenarios whose subject can be altered by an optional feature run a second time on the all-features build
+    if prop in STRESS_FEAT and not mine:
+        bindir = build_feat(ctx)
+        rep2 = os.path.join(ctx["BUILD"], f"stress_{prop}_allfeatures.json")
+        rc, out, err = ctx["sh"]([os.path.join(bindir, "stress"), "--scenario", ",".join(STRESS_FEAT[prop]),
+                                  "--seconds", "1", "--seed", str(seed), "--report", rep2], timeout=3600)
+        if rc not in (0, 3):
+            raise ctx["Infra"](f"stress (all-features build) failed rc={rc}:\n" + err[-2000:])
+        r2 = json.load(open(rep2))
+        res["evidence"]["all_features_build"] = {"scenarios": r2["scenarios"], "stats": r2["stats"]}
+        mine = [dict(v, what="[build with all optional features] " + v["what"]) for v in r2["violations"] if prop in v["props"].split()]
     for v in mine[:1]:
         res["violations"].append(("stress-oracle-failure", f"real code, scenario run: {v['what']}",
                                   {"failing_input": v, "all": mine[:20], "scenarios": scen, "seed": seed}))
@@ -93,6 +107,8 @@ NET_CLASSES = [
     ("names the cycle", {"C14"}),
     ("before its", {"C10", "C14"}),
     ("handled first", {"C02"}),
+    ("before the actor's graceful on_stop began", {"C01", "C02"}),
+    ("it does not fail with a panic", {"C09", "C15"}),
     ("never was", {"C02", "C01"}),
 ]
 
